@@ -55,13 +55,16 @@ let parse_state (toks : string list) : M.rs_ep * bool * bool =
     let (nrcvd, rest) = next rest in
     let (rcvd, rest) = take_n (int_of_string nrcvd) rest in
     let (reqs, rest) = parse_reqs rest in
+    let (hasdone, rest) = next rest in
+    let (done_, rest) = next rest in
     let (trun, _) = next rest in
     let o = { M.rs_gen = cz gen; M.rs_state = cz state; M.rs_eof = (eof = "1"); M.rs_ssn = cz ssn; M.rs_omid = cz omid;
               M.rs_umid = cz umid; M.rs_rnext = cz rnext; M.rs_rbuf = List.map cz rbuf } in
     ({ M.rs_estab = (estab = "1"); M.rs_present = (present = "1"); M.rs_obj = o; M.rs_fifo = (fifo = "1");
        M.rs_pend_u = pu; M.rs_pend_o = po; M.rs_sel_o = (selo = "1"); M.rs_next_tsn = cz ntsn; M.rs_next_rsn = cz nrsn;
        M.rs_reconfigs = rc; M.rs_will_rtx = (wrtx = "1"); M.rs_cum = cz cum; M.rs_maxoff = cz maxoff;
-       M.rs_rcvd = List.map cz rcvd; M.rs_reqs = reqs }, valid = "1", trun = "1")
+       M.rs_rcvd = List.map cz rcvd; M.rs_reqs = reqs;
+       M.rs_done = (if hasdone = "1" then Some (cz done_) else None) }, valid = "1", trun = "1")
   | _ -> failwith "short state line"
 
 let s_chunk c = Printf.sprintf "%s,%s,%s,%s" (sz c.M.rs_pc_len) (sbool c.M.rs_pc_unord) (sbool c.M.rs_pc_beg) (sbool c.M.rs_pc_end)
@@ -70,7 +73,7 @@ let s_reqs l = String.concat ";" (List.map s_req (List.sort (fun a b -> Z.compar
 
 let proj (e : M.rs_ep) (with_rbuf : bool) : string =
   let o = e.M.rs_obj in
-  Printf.sprintf "estab=%s present=%s gen=%s state=%s eof=%s ssn=%s mid=%s/%s rnext=%s rbuf=[%s] fifo=%s sel=%s pend_u=[%s] pend_o=[%s] next_tsn=%s next_rsn=%s reconfigs=[%s] willrtx=%s cum=%s rcvd=[%s] reqs=[%s]"
+  Printf.sprintf "estab=%s present=%s gen=%s state=%s eof=%s ssn=%s mid=%s/%s rnext=%s rbuf=[%s] fifo=%s sel=%s pend_u=[%s] pend_o=[%s] next_tsn=%s next_rsn=%s reconfigs=[%s] willrtx=%s cum=%s rcvd=[%s] reqs=[%s] performed=%s"
     (sbool e.M.rs_estab) (sbool e.M.rs_present) (sz o.M.rs_gen) (sz o.M.rs_state) (sbool o.M.rs_eof) (sz o.M.rs_ssn)
     (sz o.M.rs_omid) (sz o.M.rs_umid) (sz o.M.rs_rnext)
     (if with_rbuf then String.concat " " (List.map sz o.M.rs_rbuf) else "-")
@@ -78,7 +81,7 @@ let proj (e : M.rs_ep) (with_rbuf : bool) : string =
     (String.concat ";" (List.map s_chunk e.M.rs_pend_u)) (String.concat ";" (List.map s_chunk e.M.rs_pend_o))
     (sz e.M.rs_next_tsn) (sz e.M.rs_next_rsn) (s_reqs e.M.rs_reconfigs) (sbool e.M.rs_will_rtx) (sz e.M.rs_cum)
     (String.concat " " (List.map Z.to_string (List.sort Z.compare (List.map z_of_cz e.M.rs_rcvd))))
-    (s_reqs e.M.rs_reqs)
+    (s_reqs e.M.rs_reqs) (match e.M.rs_done with Some p -> sz p | None -> "-")
 
 let kinds = Hashtbl.create 16
 let bump k = Hashtbl.replace kinds k (1 + try Hashtbl.find kinds k with Not_found -> 0)
@@ -108,12 +111,16 @@ let run path =
            | None -> bump "request-refused"; e
            | Some (e1, r) ->
              add_resps [r];
+             if Z.equal (z_of_cz r.M.rs_r_res) Z.one && M.rs_already e q && M.rs_mem sid q.M.rs_q_ids then bump "request-already-performed-answered-again";
              if r.M.rs_r_hit then bump "request-reset-performed-on-stream"
              else if Z.equal (z_of_cz r.M.rs_r_res) Z.one then bump "request-performed-no-stream" else bump "request-deferred";
              e1)
         | ["resp"; rsn; result] ->
           bump ("response-" ^ result);
           let (e1, tact) = M.rs_recv_response sid e (cz rsn) (cz result) in
+          if result = "1" && e.M.rs_present && Z.equal (z_of_cz e.M.rs_obj.M.rs_state) Z.zero
+             && (match M.rs_req_get e.M.rs_reconfigs (cz rsn) with Some q -> M.rs_mem sid q.M.rs_q_ids | None -> false)
+          then bump "response-for-earlier-incarnation-left-open-stream-alone";
           last_tact := Some tact; e1
         | ["data"; tsn; mine; simple; ssn] ->
           if mine = "1" then bump "data-mine" else bump "data-other";
